@@ -1198,7 +1198,7 @@ def convectionTermCylindrical3D(u: FaceVariable):
     AN = vn.ravel()
     AS = -vs.ravel()
     AF = wf.ravel()
-    AB = wb.ravel()
+    AB = -wb.ravel()
     APx = ((DRe*ue-DRw*uw)/DRp).ravel()
     APy = ((DTHETAn*vn-DTHETAs*vs)/DTHETAp).ravel()
     APz = ((DZf*wf-DZb*wb)/DZp).ravel()
@@ -1476,7 +1476,7 @@ def convectionTermSpherical3D(u: FaceVariable):
     AN = vn.ravel()
     AS = -vs.ravel()
     AF = wf.ravel()
-    AB = wb.ravel()
+    AB = -wb.ravel()
     APx = ((DRe*ue-DRw*uw)/DRp).ravel()
     APy = ((DTHETAn*vn-DTHETAs*vs)/DTHETAp).ravel()
     APz = ((DPHIf*wf-DPHIb*wb)/DPHIp).ravel()
